@@ -29,7 +29,15 @@ class Prop(PropBase):
                 name = f'c14_{"host" if host else "lidar"}_{t}_{r}'
                 self.cfgs[name] = (t, cfg)
                 scn_all.append(scen.mixed_scenario(rng, self.L, t, name, cfg, malformed_p=0.15, gap_p=0.1, host=host,
-                                                   npk=rng.choice([4, 6]) if t != 'RSM1_JUMBO' else 2, start_az=rng.choice([None, 35900])))
+                                                   npk=rng.choice([4, 6]) if t != 'RSM1_JUMBO' else 2, start_az=rng.choice([None, 35900]),
+                                                   bpv4=(r % 4 == 0) if t == 'RSBP' else None))
+                if t == 'RSBP' and r % 2 == 1:
+                    # both Bpearl header formats under the host clock
+                    for v4 in (False, True):
+                        cfg2 = scen.rand_cfg(rng, dense=0, wait=0, lclock=0, pktcb=1, tsfirst=0)
+                        n2 = f'c14_host_RSBP{"v4" if v4 else "v3"}_{r}'
+                        self.cfgs[n2] = (t, cfg2)
+                        scn_all.append(scen.mixed_scenario(rng, self.L, t, n2, cfg2, malformed_p=0.0, host=True, npk=4, bpv4=v4, start_az=35900))
         return [('rec', '\n'.join(scn_all) + '\n')]
 
     def judge(self, bname, inp, impl_path, model_path, impl_log, violations, broken, stats):
